@@ -16,6 +16,8 @@ import (
 	"runtime"
 	"strconv"
 	"strings"
+	"sync"
+	"sync/atomic"
 	"syscall"
 	"time"
 
@@ -441,7 +443,7 @@ const memprobeCapMiB = 3072
 // memprobe runs Grow(n) on a zero buffer of the given kind in a child process whose address space is capped, and
 // classifies the outcome: ok | too-large (recoverable panic ErrTooLarge) | fatal (the runtime aborted: out of memory).
 func memprobe(kind string, n int64) string {
-	ctx, cancel := context.WithTimeout(context.Background(), 30*time.Second)
+	ctx, cancel := context.WithTimeout(context.Background(), 8*time.Second)
 	defer cancel()
 	cmd := exec.CommandContext(ctx, os.Args[0], "memprobe", kind, strconv.FormatInt(n, 10))
 	var out, errb bytes.Buffer
@@ -584,16 +586,101 @@ type session struct {
 	desync   bool // left the domain compared with bytes.Buffer (the property's exclusion, or ReWrite)
 	diverged bool // a monitor already fired in this script: later differences are consequences
 	started  bool
-	hits     []corr.Hit
+	pristine bool     // nothing was read since the buffer was created / Reset / Truncate(0) / completely drained by WriteTo
+	dead     bool     // an operation of this script never returned: the buffers are abandoned
+	stage    atomic.Value // "tex" | "bytes": which buffer the current operation runs on (for the watchdog's report)
+	hl       *hitList
+}
+
+// hitList survives re-initialisation of the session and is shared with a watchdog
+type hitList struct {
+	mu   sync.Mutex
+	hits []corr.Hit
 }
 
 func (s *session) hit(site, what, detail string) {
-	s.hits = append(s.hits, corr.Hit{Key: "C11:" + site + ":" + what, What: detail})
+	if s.hl == nil {
+		s.hl = &hitList{}
+	}
+	s.hl.mu.Lock()
+	s.hl.hits = append(s.hl.hits, corr.Hit{Key: "C11:" + site + ":" + what, What: detail})
+	s.hl.mu.Unlock()
+}
+
+func (s *session) hits() []corr.Hit {
+	if s.hl == nil {
+		return nil
+	}
+	s.hl.mu.Lock()
+	defer s.hl.mu.Unlock()
+	return append([]corr.Hit(nil), s.hl.hits...)
+}
+
+// ---- watchdog: an operation of the code under test that does not return is a monitor hit, never a hang of the harness.
+// The call runs in its own goroutine; when it misses the deadline the script is abandoned (the goroutine cannot be killed and
+// keeps spinning until the process exits), so an operation name that hung 3 times is not executed any more.
+var (
+	hangMu    sync.Mutex
+	hangCount = map[string]int{}
+)
+
+const opDeadline, opDeadlineAfterHang, maxHangsPerOp = 20 * time.Second, 3 * time.Second, 3
+
+func (s *session) safeLine(l string) string {
+	if s.dead {
+		return "skipped-after-hang"
+	}
+	opn := strings.Fields(l + " ?")[0]
+	hangMu.Lock()
+	h := hangCount[opn]
+	hangMu.Unlock()
+	if h >= maxHangsPerOp {
+		s.dead = true
+		return "not-run:" + opn + "-hung-" + strconv.Itoa(h) + "-times"
+	}
+	deadline := opDeadline
+	if h > 0 {
+		deadline = opDeadlineAfterHang
+	}
+	if s.hl == nil {
+		s.hl = &hitList{}
+	}
+	s.stage.Store("tex")
+	done := make(chan string, 1)
+	go func() {
+		defer func() {
+			if r := recover(); r != nil {
+				done <- "runner-" + showPanic(r)
+			}
+		}()
+		done <- s.line(l)
+	}()
+	select {
+	case out := <-done:
+		return out
+	case <-time.After(deadline):
+		s.dead = true
+		hangMu.Lock()
+		hangCount[opn]++
+		hangMu.Unlock()
+		m := methodOf[opn]
+		if m == "" {
+			m = opn
+		}
+		st, _ := s.stage.Load().(string)
+		if st == "bytes" {
+			s.hit(m, "reference-never-returns", fmt.Sprintf("op `%s` on bytes.Buffer did not return within %v", l, deadline))
+			return "T ? ## B never-returns"
+		}
+		s.hit(m, "never-returns", fmt.Sprintf("op `%s` on tex.Buffer did not return within %v (CPU-bound or blocked inside the call); bytes.Buffer is not asked any more", l, deadline))
+		return "T never-returns ## B *"
+	}
 }
 
 func (s *session) init(f []string) (string, bool) {
 	fresh := func(t *tex.Buffer, b *bytes.Buffer) {
-		*s = session{t: t, b: b, started: true, hits: s.hits}
+		hl := s.hl
+		*s = session{t: t, b: b, started: true, pristine: true, hl: hl}
 	}
 	switch f[0] {
 	case "new":
@@ -733,6 +820,18 @@ func (s *session) line(l string) string {
 	case !keeps:
 		s.taint = false
 	}
+	switch o.name {
+	case "reset":
+		s.pristine = true
+	case "truncate":
+		if o.n == 0 {
+			s.pristine = true
+		}
+	case "writeto":
+		s.pristine = strings.HasSuffix(tres, "err=nil") // completely drained: "Buffer is now empty; reset"
+	case "read", "readbyte", "readrune", "next", "unreadbyte", "unreadrune":
+		s.pristine = false
+	}
 	s.desync = desync
 	tl := "T " + tres + " " + view(s.t)
 	if desync {
@@ -741,6 +840,7 @@ func (s *session) line(l string) string {
 	if o.name == "cap" || o.name == "off" {
 		return tl + " ## B -"
 	}
+	s.stage.Store("bytes")
 	bres := apply(s.b, o)
 	bl := bres + " " + view(s.b)
 	// ---- the property monitor: tex.Buffer and bytes.Buffer answer alike and hold the same unread contents
@@ -812,6 +912,11 @@ func (s *session) rewrite(o op) (res string) {
 			s.t.ReWrite(int(o.n), o.data)
 		}
 	}()
+	if s.pristine && off != 0 {
+		// API-level reading of "the addressed bytes": nothing was read since the buffer was created / reset / drained, so the
+		// pos-th byte written since then is storage byte pos
+		s.hit("ReWrite", "addresses-stale-offset", fmt.Sprintf("ReWrite(%d, %s): nothing was read since the buffer was last emptied (Reset / Truncate(0) / WriteTo drained it), yet the storage offset is %d, so position %d is not the %d-th byte written since", o.n, showBytes(o.data), off, o.n, o.n))
+	}
 	after := s.t.Bytes()
 	wantPanic := o.n < 0 || o.n > int64(off+len(before))
 	bad := ""
@@ -853,11 +958,11 @@ func runCase(c corr.Case) corr.Result {
 					out = "runner-" + showPanic(r)
 				}
 			}()
-			out = s.line(l)
+			out = s.safeLine(l)
 		}()
 		res.Outs = append(res.Outs, out)
 	}
-	res.Hits = s.hits
+	res.Hits = s.hits()
 	return res
 }
 
